@@ -2,12 +2,11 @@ SPECIFICATION Spec
 CONSTANTS
   Tx = {t1, t2, t3}
   Cap = 2
-  MaxSeg = 2
+  MaxSeg = 1
   WatchPerSegment = TRUE
   SwapInstallsOld = TRUE
   ResetOnRoll = FALSE
-  Reader = {r1, r2}
-INVARIANTS TypeOK AckedDurable AckedPublished PublishedFindable ReaderNeverMisses
+  Reader = {r1}
+INVARIANTS TypeOK ReaderNeverMisses EmitLate
 PROPERTY PublishedMonotone AckStable
-VIEW ViewNoHist
 CHECK_DEADLOCK FALSE
